@@ -4,7 +4,7 @@
 EXTENDS SaveIO, Json
 
 CONSTANTS MaxEnt,      \* entries per package: 1..MaxEnt
-          MaxDat,      \* compressed data of an entry: 1..MaxDat bytes (header is 1 byte)
+          MinDat, MaxDat, \* compressed data of an entry: MinDat..MaxDat bytes (0: a stored empty part; header is 1 byte)
           DirSizes,    \* sizes of the central directory
           BufSizes,    \* capacities of the buffered writer
           MCVariants,  \* protocol variants explored
@@ -17,13 +17,22 @@ vars == <<cfg, st, hist>>
 
 \* ---- all configurations ----------------------------------------------------
 SeqsOf(S, n) == [1..n -> S]
-Layouts == UNION {{[hdr |-> [i \in 1..n |-> 1], dat |-> d] : d \in SeqsOf(1..MaxDat, n)} : n \in 1..MaxEnt}
+Layouts == UNION {{[hdr |-> [i \in 1..n |-> 1], dat |-> d] : d \in SeqsOf(MinDat..MaxDat, n)} : n \in 1..MaxEnt}
 Passes(d) == {p \in SeqsOf(0..MaxDat, Len(d)) : \A i \in 1..Len(d) : p[i] <= d[i]}
 
-InitMC == /\ cfg \in {[variant |-> v, target |-> t, hdr |-> l.hdr, dat |-> l.dat, pass |-> p, dir |-> dr, B |-> b,
+\* which (variant, target, staged, other faults) combinations are worth exploring: the deviating variants only where they can deviate
+Explored(v, t, sg, cf, sf) ==
+  CASE v = "intended"    -> ~sg \/ t \in {"newdir", "existing", "device", "linktofile"}   \* (staged: where writes happen)
+    [] v = "asbuilt"     -> ~sg /\ t \notin PathForms
+    [] v = "cleaned"     -> ~sg /\ (t \in PathForms \/ t = "newdir") /\ ~cf /\ ~sf
+    [] v = "uncollected" -> sg /\ t \in {"newdir", "linktofile"} /\ ~cf /\ ~sf
+    [] OTHER -> FALSE
+InitMC == /\ cfg \in {[variant |-> x[1], target |-> x[2], staged |-> x[3], hdr |-> l.hdr, dat |-> l.dat, pass |-> p, dir |-> dr, B |-> b,
                        faultAt |-> k, closeFault |-> cf, serFault |-> sf] :
-                         v \in MCVariants, t \in MCTargets, l \in Layouts, p \in {<<>>},
+                         x \in {y \in MCVariants \X MCTargets \X BOOLEAN : TRUE},
+                         l \in Layouts, p \in {<<>>},
                          dr \in DirSizes, b \in BufSizes, k \in {NoFault}, cf \in BOOLEAN, sf \in BOOLEAN}
+          /\ Explored(cfg.variant, cfg.target, cfg.staged, cfg.closeFault, cfg.serFault)
           /\ st = InitSt(cfg) /\ hist = <<>>
 \* the configuration is completed step by step so that TLC never materialises the product:
 \* pass and faultAt are chosen in a first step
@@ -46,6 +55,19 @@ Inv_C05 == Intended => C05Holds
 \* ... which the protocol as built (deferred closes, errors dropped) does NOT satisfy: this
 \* "invariant" is expected to be violated; TLC's counterexample is the defect (SaveIO_MC_asbuilt_cex.cfg)
 Inv_C05_AsBuilt == (cfg.variant = "asbuilt" /\ ~cfg.closeFault) => C05Holds
+\* lexical cleaning of the path is harmless exactly where it leads to the same place ...
+Inv_C05_Cleaned == (cfg.variant = "cleaned" /\ LexicallySafe(cfg.target)) => C05Holds
+\* ... and where it does not, every success it reports is a false one (the file was written, but elsewhere)
+Inv_CleanedElsewhere == (cfg.variant = "cleaned" /\ ~LexicallySafe(cfg.target) /\ st.ret = "nil") => ~Complete(cfg, st)
+\* the spellings: only ".." after a symbolic link makes the cleaned string lead elsewhere
+Inv_PathForms == \A t \in Targets : LexicallySafe(t) <=> t # "linkdotdot"
+\* a stage whose result is not collected loses exactly the failures of the last chunk: nil for an incomplete file
+\* happens only if a write failed that nobody was told about, and then the fault lies in the tail
+Inv_Uncollected == (Chosen /\ cfg.variant = "uncollected" /\ st.pc = "done" /\ st.ret = "nil" /\ ~Complete(cfg, st)) =>
+                      (st.failed /\ cfg.faultAt # NoFault /\ cfg.faultAt + TailBytes(cfg) >= N(cfg))
+\* and it does lose them: the deviation is real (a fault in the very last byte is never reported)
+Inv_UncollectedLoses == (Chosen /\ cfg.variant = "uncollected" /\ st.pc = "done" /\ ~cfg.serFault /\ ~cfg.closeFault
+                           /\ cfg.target # "device" /\ cfg.faultAt = N(cfg) - 1) => (st.ret = "nil" /\ ~Complete(cfg, st))
 \* a failed write / create / close is never reported as success
 Inv_FaultReported == (Intended /\ st.ret = "nil") => ~st.failed
 \* no error is invented
@@ -53,7 +75,7 @@ Inv_NoSpurious == st.ret = "err" => (st.failed \/ cfg.serFault)
 \* the protocol's result is the closed form the trace judge uses
 Inv_Oracle == (Intended /\ Chosen /\ st.pc = "done") => st.ret = ExpRet(cfg)
 \* nothing is lost silently: durable + buffered = handed to the buffered writer, while no write failed
-Inv_Conservation == (st.file.kind = "new" /\ ~st.werr) => st.file.len + st.buf = st.prod
+Inv_Conservation == (st.file.kind = "new" /\ ~st.werr /\ ~st.failed) => st.file.len + st.buf = st.prod
 \* the target never holds more than it accepts; the buffer never exceeds its capacity
 Inv_Limit == /\ (Chosen /\ st.file.kind = "new" /\ cfg.faultAt # NoFault) => st.file.len <= cfg.faultAt
              /\ st.buf <= cfg.B
@@ -79,14 +101,23 @@ Live_Returns == <>(st.pc = "done")
 \* limit; "sweep": one call per fault offset - points = 0: every offset 0..N+2, points = n: about
 \* n evenly spaced ones plus the first and last `edge` offsets and the buffer boundaries), and
 \* the number of content operations / saves per behaviour.
+\* Plan "conc" (GC): the save under test is repeated `rounds` times by its own goroutine while `others` further goroutines
+\* each save a document of their own (different content and size) to a path of their own as often, all free-running;
+\* every one of these calls is an observation, judged like any other.
+\* Content classes: sizes from below one buffer of the zip writer to beyond a quarter / half of a MiB (thresholds at which
+\* an implementation may change its strategy), origins New / opened-minimal / opened-rich / opened-odd (a package that
+\* carries degenerate parts: zero-length, one byte, incompressible beyond one deflate block, unusual names).
 SmallDoc == {"table", "header", "footnote", "para", "image", "list"}
-LargeDoc == {"longtext", "midimage", "bigimage"}
-AllDoc   == {"openmin", "openrich", "para", "heading", "longtext", "table", "image", "midimage", "header", "footer", "footnote", "list", "margins", "title", "style", "pad32k", "pad64k"}
+LargeDoc == {"longtext", "midimage", "bigimage", "hugeimage"}
+AllDoc   == {"openmin", "openrich", "openodd", "para", "heading", "longtext", "table", "image", "midimage", "header", "footer", "footnote", "list", "margins", "title", "style", "pad32k", "pad64k"}
 AllMd    == {"mdpara", "mdheading", "mdlist", "mdtable", "mdlong"}
 Reg      == {"newdir", "existing"}
 G(g, doc, md, vias, targets, plan, points, edge, maxdoc, maxsaves) ==
   [g |-> g, doc |-> doc, md |-> md, vias |-> vias, targets |-> targets, plan |-> plan,
-   points |-> points, edge |-> edge, maxdoc |-> maxdoc, maxsaves |-> maxsaves]
+   points |-> points, edge |-> edge, maxdoc |-> maxdoc, maxsaves |-> maxsaves, rounds |-> 0, others |-> {0}]
+GC(g, doc, targets, rounds, others, maxdoc) ==
+  [g |-> g, doc |-> doc, md |-> {}, vias |-> {"Save"}, targets |-> targets, plan |-> "conc",
+   points |-> 0, edge |-> 0, maxdoc |-> maxdoc, maxsaves |-> 1, rounds |-> rounds, others |-> others]
 AllGroups == {
   \* quick tier
   G("q-sweep-all",   {"table"}, {}, {"Save"}, Reg, "sweep", 0, 0, 1, 1),
@@ -95,21 +126,32 @@ AllGroups == {
   G("q-md-targets",  {}, AllMd, {"ConvertFile", "BatchConvert"}, Targets, "none", 0, 0, 1, 1),
   G("q-md-sweep",    {}, {"mdtable", "mdlong"}, {"ConvertFile"}, {"newdir"}, "sweep", 150, 64, 1, 1),
   G("q-resave",      {"para", "image", "title", "style"}, {}, {"Save"}, {"newdir", "existing", "device", "resave"}, "none", 0, 0, 2, 2),
-  G("q-opened",      {"openmin", "openrich", "heading", "para", "style", "list"}, {}, {"Save"}, Reg, "none", 0, 0, 2, 1),
+  G("q-opened",      {"openmin", "openrich", "openodd", "heading", "para", "style", "list"}, {}, {"Save"}, Reg, "none", 0, 0, 2, 1),
+  G("q-odd-sweep",   {"openodd"}, {}, {"Save"}, {"newdir"}, "sweep", 100, 32, 1, 1),
+  G("q-spelt-sweep", {"para"}, {}, {"Save"}, {"linkdotdot", "linktofile", "relative"}, "sweep", 24, 8, 1, 1),
+  GC("q-conc",       {"para", "table", "image", "openmin", "longtext"}, Reg, 32, {1, 3}, 1),
   G("q-random",      AllDoc, {}, {"Save"}, {"newdir", "existing", "device", "resave"}, "sweep", 60, 32, 8, 2),
   \* thorough tier
   G("t-sweep-all",   SmallDoc, {}, {"Save"}, Reg, "sweep", 0, 0, 1, 1),
-  G("t-sweep-large", LargeDoc, {}, {"Save"}, Reg, "sweep", 600, 256, 2, 1),
+  G("t-sweep-large", LargeDoc \ {"hugeimage"}, {}, {"Save"}, Reg, "sweep", 600, 256, 2, 1),
+  G("t-sweep-huge",  {"hugeimage", "bigimage"}, {}, {"Save"}, Reg, "sweep", 300, 128, 2, 1),
   G("t-targets",     AllDoc, {}, {"Save"}, Targets, "none", 0, 0, 2, 1),
   G("t-md-targets",  {}, AllMd, {"ConvertFile", "BatchConvert"}, Targets, "none", 0, 0, 2, 1),
   G("t-md-sweep",    {}, {"mdtable", "mdlong"}, {"ConvertFile", "BatchConvert"}, {"newdir"}, "sweep", 0, 0, 1, 1),
   G("t-resave",      {"para", "image", "header", "title", "style", "margins"}, {}, {"Save"}, {"newdir", "existing", "device", "resave"}, "none", 0, 0, 3, 3),
+  G("t-odd-sweep",   {"openodd"}, {}, {"Save"}, Reg, "sweep", 400, 128, 2, 1),
+  G("t-spelt-sweep", {"para", "midimage"}, {}, {"Save"}, PathForms, "sweep", 60, 16, 1, 1),
+  GC("t-conc",       {"para", "table", "image", "openmin", "openrich", "openodd", "longtext", "midimage"}, Reg \cup {"resave", "vialink"}, 40, {1, 2, 3, 7}, 1),
+  G("t-opened-odd",  {"openodd", "heading", "para", "style", "footnote"}, {}, {"Save"}, {"newdir", "existing", "device", "resave"}, "none", 0, 0, 2, 2),
   G("t-opened",      {"openmin", "openrich", "heading", "para", "style", "list", "footnote", "header", "title"}, {}, {"Save"}, {"newdir", "existing", "device", "resave"}, "none", 0, 0, 3, 2),
   G("t-random",      AllDoc, {}, {"Save"}, {"newdir", "existing", "device", "resave"}, "sweep", 400, 128, 8, 3)}
 Groups == {x \in AllGroups : x.g \in GroupNames}
 
 \* a behaviour: the group, then content operations and saves; emitted whenever it ends with a save
 IsSave(o) == o.op = "Save"
+\* BatchConvert is given a directory and composes the path of the file itself (directory + name of the input), so the
+\* spelling of the file's path is not the caller's: the spelt targets are for the entry points that take the path
+SpellsPath(v, t) == v = "BatchConvert" => t \notin PathForms
 NSaves(h) == Cardinality({i \in 1..Len(h) : IsSave(h[i])})
 NDoc(h) == Len(h) - NSaves(h) - 1
 GroupOf(h) == CHOOSE x \in Groups : x.g = h[1].g
@@ -123,9 +165,11 @@ NextGen ==
           /\ \/ \E o \in x.doc \cup x.md :
                   /\ NDoc(hist) < x.maxdoc
                   /\ hist' = Append(hist, [op |-> o])
-             \/ \E v \in x.vias, t \in x.targets :
-                  hist' = Append(hist, [op |-> "Save", via |-> v, target |-> t,
-                                        plan |-> x.plan, points |-> x.points, edge |-> x.edge])
+             \/ \E v \in x.vias, t \in x.targets, n \in x.others :
+                  /\ SpellsPath(v, t)
+                  /\ hist' = Append(hist, [op |-> "Save", via |-> v, target |-> t,
+                                        plan |-> x.plan, points |-> x.points, edge |-> x.edge,
+                                        rounds |-> x.rounds, others |-> n])
 SpecGen == InitGen /\ [][NextGen]_vars
 
 Emit == \/ Len(hist) = 0
